@@ -12,6 +12,9 @@ MAX_STEPS = 120
 
 def child_main(job, ask):
     mode = job["mode"]
+    if mode == "audit":
+        from .ops import audit
+        return {"audit": audit(), "stats": {}, "violations": []}
     ex = Executor(oracle=ask, alias_guidance=job.get("alias_guidance", True),
                   count_lines=job.get("count_lines", False), record_args=job.get("record_args", False))
     steps = []
